@@ -5,7 +5,8 @@ Domain   (object half) MHLHashList graphs built the way the tool's own callers b
          previous paths), sizes 0 .. 2^63, root hash, 1-6 ignore patterns, creator info with 0-3 authors, location,
          comment, process type, 0-3 references to real files; text from the full alphabet including XML-special
          characters, astral-plane, combining marks, exotic spaces and U+2028/U+2029; chains with 0-8 generations.
-         (scenario half) every manifest and chain file produced by generated create histories.
+         (scenario half) every manifest and chain file produced by generated create histories (with overwritten
+         and renamed files), read file by file and through the history loader (MHLHistory.load_from_path).
 Oracle   write_hash_list -> parse: field-by-field equality for the fields the statement lists (None and '' are
          identified, hash dates compared as instants); the independent xml.etree reader must extract the same
          values from the same bytes (differential).  Same for write_chain -> parse.
@@ -33,7 +34,7 @@ ASSUMPTIONS = [
     "the zone is set per case (UTC or a zone with daylight saving); offset correctness itself is C16, here only the instants must survive the round trip",
 ]
 BUDGET = {"quick": (600, 4), "thorough": (100000, 16)}
-REQUIRED = ["special_text", "line_separator_text", "size0", "previous_path", "reference", "dir_record", "roothash", "authors", "chain", "history_manifests", "chain_nonunique_or_gapped", "collection_files", "bulk_manifest", "bulk_history", "zone_with_dst"]
+REQUIRED = ["special_text", "line_separator_text", "size0", "previous_path", "reference", "dir_record", "roothash", "authors", "chain", "history_manifests", "chain_nonunique_or_gapped", "collection_files", "bulk_manifest", "bulk_history", "zone_with_dst", "loaded_through_history"]
 
 CLI = refhash.CLI_FORMATS
 _HEXLEN = {"md5": 32, "sha1": 40, "xxh128": 32, "xxh3": 16, "xxh64": 16}
@@ -319,6 +320,23 @@ def run_object(scn, ctx):
     ctx.mark_nontrivial(special and nfm >= 2 and (prev or bool(refs) or size0))
 
 
+def _same_hash_list(t, i, p, via):
+    """tool-side MHLHashList t against the independent reading i of the same file p"""
+    require(len(t.media_hashes) == len(i["records"]), "h-records", "%s%s: tool reads %d records, independent reader %d" % (via, p, len(t.media_hashes), len(i["records"])))
+    for b, r in zip(t.media_hashes, i["records"]):
+        require(b.path == r["path"], "h-path", "%s%s: %r vs %r" % (via, p, b.path, r["path"]))
+        require((str(b.file_size) if b.file_size is not None else None) == r["size"], "h-size", "%s%s %r: size %r vs %r" % (via, p, r["path"], b.file_size, r["size"]))
+        require(_norm(b.previous_path) == _norm(r["previous"]), "h-previous", "%s%s %r: %r vs %r" % (via, p, r["path"], b.previous_path, r["previous"]))
+        got = sorted((e.hash_format, e.hash_string, e.structure_hash_string, e.action) for e in b.hash_entries)
+        want = sorted((e["fmt"], e["digest"], e["structure"], e["action"]) for e in r["entries"])
+        require(got == want, "h-entries", "%s%s %r: %r vs %r" % (via, p, r["path"], got, want))
+        if r["lastmod"] is not None and b.last_modification_date is not None:
+            require(_instant(b.last_modification_date) == _instant(r["lastmod"]), "h-lastmod", "%s%s %r: %r vs %r" % (via, p, r["path"], b.last_modification_date, r["lastmod"]))
+    require(t.process_info.ignore_spec.get_pattern_list() == i["patterns"], "h-patterns", "%s%s: %r vs %r" % (via, p, t.process_info.ignore_spec.get_pattern_list(), i["patterns"]))
+    require([(x.path, x.reference_hash) for x in t.hash_list_references] == [(x["path"], x["c4"]) for x in i["references"]], "h-references", "%s%s references differ" % (via, p))
+    require(t.creator_info.creation_date == i["creatorinfo"].get("creationdate"), "h-creator", "%s%s creation date" % (via, p))
+
+
 def run_history(scn, ctx):
     from ascmhl import chain_xml_parser, hashlist_xml_parser
 
@@ -344,22 +362,7 @@ def run_history(scn, ctx):
             if p.endswith(".mhl"):
                 t = hashlist_xml_parser.parse(ap)
                 i = refxml.read_manifest(ap)
-                require(len(t.media_hashes) == len(i["records"]), "h-records", "%s: tool reads %d records, independent reader %d" % (p, len(t.media_hashes), len(i["records"])))
-                for b, r in zip(t.media_hashes, i["records"]):
-                    require(b.path == r["path"], "h-path", "%s: %r vs %r" % (p, b.path, r["path"]))
-                    require((str(b.file_size) if b.file_size is not None else None) == r["size"], "h-size", "%s %r: size %r vs %r" % (p, r["path"], b.file_size, r["size"]))
-                    require(_norm(b.previous_path) == _norm(r["previous"]), "h-previous", "%s %r: %r vs %r" % (p, r["path"], b.previous_path, r["previous"]))
-                    got = sorted((e.hash_format, e.hash_string, e.structure_hash_string, e.action) for e in b.hash_entries)
-                    want = sorted((e["fmt"], e["digest"], e["structure"], e["action"]) for e in r["entries"])
-                    require(got == want, "h-entries", "%s %r: %r vs %r" % (p, r["path"], got, want))
-                    # every file path must name a file of the model, with its true size
-                    if r["kind"] == "file":
-                        full = p.rsplit("/ascmhl/", 1)[0] + "/" + r["path"]
-                        if full in w.files and r["size"] is not None:
-                            pass
-                require(t.process_info.ignore_spec.get_pattern_list() == i["patterns"], "h-patterns", "%s: %r vs %r" % (p, t.process_info.ignore_spec.get_pattern_list(), i["patterns"]))
-                require([(x.path, x.reference_hash) for x in t.hash_list_references] == [(x["path"], x["c4"]) for x in i["references"]], "h-references", "%s references differ" % p)
-                require(t.creator_info.creation_date == i["creatorinfo"].get("creationdate"), "h-creator", "%s creation date" % p)
+                _same_hash_list(t, i, p, "")
                 n += 1
             else:
                 t = chain_xml_parser.parse(ap)
@@ -367,6 +370,22 @@ def run_history(scn, ctx):
                 got = [(str(g.generation_number), g.ascmhl_filename, g.hash_format, g.hash_string) for g in t.generations]
                 want = [(g["seq"], g["path"], g["fmt"], g["digest"]) for g in i]
                 require(got == want, "h-chain", "%s: %r vs %r" % (p, got, want))
+        # the same manifests as the history loader hands them to every command (MHLHistory.load_from_path, child
+        # histories included): nothing may be changed on the way
+        from ascmhl.history import MHLHistory
+
+        def walk(h):
+            yield h
+            for c in h.child_histories:
+                yield from walk(c)
+
+        for r in w.history_roots():
+            if any(r != o and w.under(r, o) for o in w.history_roots()):
+                continue  # reached through its parent
+            for h in walk(MHLHistory.load_from_path(w.abs(r))):
+                for hl in h.hash_lists:
+                    _same_hash_list(hl, refxml.read_manifest(hl.file_path), w.rel(hl.file_path), "history loader: ")
+                    ctx.event("loaded_through_history")
         ctx.event("history_manifests", n)
         ctx.mark_nontrivial(n >= 2 and gen.has_special_name(scn["tree"]))
         return w.trace
